@@ -60,7 +60,27 @@ def build(repo):
         Rule("R1", "class_type . name ( ) == ident_str", "str_eq ( class_type . name ( ) , & ident_str )", why="str == String"),
     ], log, "dot_chain_option[callee]")
     check_closed(b, "dot_chain_option[callee]")
-    gen = header(log, f"{FILE}: Parser::dot_chain_option, arm dot_function_call (what may be called)") + SPEC + f"""
+    TYPE = "compiler/src/ast/type.rs"
+    fc = src.fn(TYPE, "is_callable_allow_class", "impl TypeLayout")
+    bc = translate(fc["body"], [
+        Rule("R1", "Self :: Function ( f ) => Some ( Cow :: Borrowed ( f ) )", "TypeLayout :: Function ( f ) => Some ( clone_ft ( f ) )", why="Cow::Borrowed(&FunctionType): that function type"),
+        Rule("R1", "Self :: Class ( class_type ) if allow_class => Some ( Cow :: Owned ( class_type . constructor ( ) ) )", "TypeLayout :: Class ( class_type ) if allow_class => Some ( class_type . constructor ( ) )", why="Cow::Owned: the constructor's type"),
+    ], log, "TypeLayout::is_callable_allow_class")
+    check_closed(bc, "is_callable_allow_class")
+    gen = header(log, f"{FILE}: Parser::dot_chain_option, arm dot_function_call (what may be called); {TYPE}: TypeLayout::is_callable_allow_class") + SPEC + f"""
+#[verifier::external_body] pub fn clone_ft(f: &FunctionType) -> (r: FunctionType) ensures r == *f {{ unimplemented!() }}
+impl ClassType {{ #[verifier::external_body] pub fn constructor(&self) -> (r: FunctionType) ensures r == ctor_of(self) {{ unimplemented!() }} }}
+impl TypeLayout {{
+    //@ OBL C02.callable.allow-class
+    // the contract the callee decision below assumes of it, proved of the real text: a function value is callable; a class only where the caller allows one (its constructor)
+    pub fn is_callable_allow_class_real(&self, allow_class: bool) -> (r: Option<FunctionType>)
+        ensures strip(self) is Function ==> r == Some(strip(self)->Function_0),
+                strip(self) is Class ==> r == (if allow_class {{ Some(ctor_of(&strip(self)->Class_0)) }} else {{ None::<FunctionType> }}),
+                !(strip(self) is Function) && !(strip(self) is Class) ==> r is None
+    {{
+{render(bc, 2)}
+    }}
+}}
 //@ OBL C02.member-call.callee-is-callable
 pub fn member_callee(lhs_ty: &TypeLayout, type_of_property: &TypeLayout, ident_str: VStr) -> (r: Result<FunctionType, VErr>)
     ensures
@@ -77,11 +97,12 @@ pub fn member_callee(lhs_ty: &TypeLayout, type_of_property: &TypeLayout, ident_s
 }} // verus!
 fn main() {{}}
 """
-    return gen, [Obl("C02.member-call.callee-is-callable", ["C02", "C03", "C08"], fn="Parser::dot_chain_option[dot_function_call]",
+    return gen, [Obl("C02.callable.allow-class", ["C02", "C03", "C08"], fn="TypeLayout::is_callable_allow_class", desc="is_callable_allow_class: a function type is callable as it is; a class only where allowed, as its constructor; nothing else"),
+                 Obl("C02.member-call.callee-is-callable", ["C02", "C03", "C08"], fn="Parser::dot_chain_option[dot_function_call]",
                      desc="`x.name(args)`: the member called holds a function value, or is a class constructed under its own name through its module; a field / exported variable typed as a class (an instance) is refused")], log
 
 
 UNITS = [VUnit("c02_member_callable", ["C02", "C03", "C08"], "a member call calls a function value or a module's class, never an instance", build)]
 UNITS[0].assumes = ["fragment of the dot_function_call arm of Parser::dot_chain_option; TypeLayout reduced to the four shapes the decision distinguishes",
-                    "TypeLayout::is_callable_allow_class and get_type_recursively abstract with their documented meaning (function: callable; class: its constructor iff allowed)",
+                    "TypeLayout::get_type_recursively abstract (the type behind aliases and captured-variable wrappers); is_callable_allow_class is used under the contract proved of its text in the same unit (C02.callable.allow-class)",
                     "a module exports a class under the class's own name (ModuleType::from_node, unit c11_export_type) and a class name is never rebound (C10)"]
